@@ -347,6 +347,41 @@ static void s_ipv4(uint32_t pfx, uint8_t len, uint8_t max, uint32_t asn)
 	put32(p + 16, asn);
 	stream_n += 20;
 }
+static void s_ipv6(uint32_t top, uint8_t len, uint8_t max, uint32_t asn)
+{
+	uint8_t *p = stream + stream_n;
+
+	s_hdr(6, 0, 32);
+	p[8] = 1;
+	p[9] = len;
+	p[10] = max;
+	p[11] = 0;
+	memset(p + 12, 0, 16);
+	put32(p + 12, top);
+	put32(p + 28, asn);
+	stream_n += 32;
+}
+/* address families of a reload run: 0 = everything IPv4, 1 = everything IPv6 (the IPv4 trie stays empty), 2 = bulk and the
+ * other socket's record IPv6, probes IPv4.  An IPv6 record is the IPv4 one with its 32 bits as the top word. */
+static int fam_mode;
+static void s_rec(bool v6, uint32_t pfx, uint8_t len, uint8_t max, uint32_t asn)
+{
+	if (v6)
+		s_ipv6(pfx, len, max, asn);
+	else
+		s_ipv4(pfx, len, max, asn);
+}
+static void q_addr(struct lrtr_ip_addr *q, bool v6, uint32_t a)
+{
+	memset(q, 0, sizeof(*q));
+	if (v6) {
+		q->ver = LRTR_IPV6;
+		q->u.addr6.addr[0] = a;
+	} else {
+		q->ver = LRTR_IPV4;
+		q->u.addr4.addr = a;
+	}
+}
 static void s_key(uint32_t asn, uint8_t skib, uint8_t spkib)
 {
 	uint8_t *p = stream + stream_n;
@@ -367,12 +402,12 @@ static void build_stream(uint16_t sess, uint32_t serial, int gen, int nrec, bool
 	stream_n += 8;
 	/* bulk: nrec /24s under 100.0.0.0/8 with a generation-dependent AS, so that reloads do real work */
 	for (int i = 0; i < nrec; i++)
-		s_ipv4(0x64000000u | (i << 8), 24, 24, 64000 + gen % 2);
+		s_rec(fam_mode != 0, 0x64000000u | (i << 8), 24, 24, 64000 + gen % 2);
 	/* probes: P1 constant in every generation; P2 present in even generations only; P3 AS changes with the generation */
-	s_ipv4(0xc0000200u, 24, 24, 65001);
+	s_rec(fam_mode == 1, 0xc0000200u, 24, 24, 65001);
 	if (gen % 2 == 0)
-		s_ipv4(0xc6336400u, 24, 24, 65002);
-	s_ipv4(0xcb007100u, 24, 24, 65100 + gen);
+		s_rec(fam_mode == 1, 0xc6336400u, 24, 24, 65002);
+	s_rec(fam_mode == 1, 0xcb007100u, 24, 24, 65100 + gen);
 	if (with_keys) {
 		s_key(65001, 1, 1);
 		s_key(65003, 3, (uint8_t)(100 + gen));
@@ -412,22 +447,25 @@ static void *reader_reload(void *p)
 
 	while (!atomic_load(&stop_readers)) {
 		s = s * 6364136223846793005ull + 1442695040888963407ull;
-		int probe = (s >> 33) % 6;
+		int probe = (s >> 33) % 8; /* 0..3 prefixes of the reloading socket, 4..5 its keys, 6 / 7 the OTHER socket's prefix / key */
 		int g0 = atomic_load(&done_gen);
 		long q0 = atomic_fetch_add(&seqno, 1);
 
-		if (a->id == 1 && probe < 4 && atomic_load(&cur_gen) > g0)
+		if (a->id == 1 && (probe < 4 || probe == 6) && atomic_load(&cur_gen) > g0)
 			victim_target = atomic_load(&cur_gen); /* a reload is in progress: hold this read at the lock until it is over */
-		if (probe < 4) {
-			static const uint32_t addr[4] = {0xc0000200u, 0xc6336400u, 0xcb007100u, 0x64000100u};
-			static const uint32_t asn[4] = {65001, 65002, 0, 64000};
-			struct lrtr_ip_addr q = {.ver = LRTR_IPV4};
+		if (probe < 4 || probe == 6) {
+			static const uint32_t addr[7] = {0xc0000200u, 0xc6336400u, 0xcb007100u, 0x64000100u, 0, 0, 0xcb000000u};
+			static const uint32_t asn[7] = {65001, 65002, 0, 64000, 0, 0, 64999};
+			struct lrtr_ip_addr q;
 			enum pfxv_state res;
 			/* probe 3 asks with the AS of the generation that was complete when the call started */
 			uint32_t as = probe == 2 ? 65100 + (uint32_t)(s >> 50) % 8 : asn[probe];
+			bool v6 = probe == 3 || probe == 6 ? fam_mode != 0 : fam_mode == 1;
 
-			q.u.addr4.addr = addr[probe];
-			pfx_table_validate(&pfxt, as, &q, 24, &res);
+			q_addr(&q, v6, addr[probe]);
+			/* the other socket's /16 is asked at length 16: no record of the reloading socket covers it, so the answer
+			 * is VALID at all times */
+			pfx_table_validate(&pfxt, as, &q, probe == 6 ? 16 : 24, &res);
 			long q1 = atomic_fetch_add(&seqno, 1);
 			int g1 = atomic_load(&cur_gen);
 
@@ -437,10 +475,10 @@ static void *reader_reload(void *p)
 			uint8_t ski[SKI_SIZE];
 			struct spki_record *res = NULL;
 			unsigned int n = 0;
-			uint32_t as = probe == 4 ? 65001 : 65003;
+			uint32_t as = probe == 4 ? 65001 : probe == 5 ? 65003 : 64999;
 
 			memset(ski, 0x11, SKI_SIZE);
-			ski[0] = probe == 4 ? 1 : 3;
+			ski[0] = probe == 4 ? 1 : probe == 5 ? 3 : 9;
 			spki_table_get_all(&spkit, as, ski, &res, &n);
 			long q1 = atomic_fetch_add(&seqno, 1);
 			int g1 = atomic_load(&cur_gen);
@@ -460,8 +498,7 @@ static void otherrec(void)
 	struct pfx_record r = {.asn = 64999, .min_len = 16, .max_len = 24, .socket = &sockB};
 	struct spki_record k;
 
-	r.prefix.ver = LRTR_IPV4;
-	r.prefix.u.addr4.addr = 0xcb000000u;
+	q_addr(&r.prefix, fam_mode != 0, 0xcb000000u);
 	pfx_table_add(&pfxt, &r);
 	memset(&k, 0, sizeof(k));
 	k.asn = 64999;
@@ -479,7 +516,8 @@ static int run_reload(unsigned long long seed, int nrec, int nreaders, int round
 	char buf[256];
 
 	vh_seed(seed);
-	stream = malloc((size_t)nrec * 20 + 4096);
+	fam_mode = (int)(seed % 3);
+	stream = malloc((size_t)nrec * 32 + 4096);
 	pfx_table_init(&pfxt, NULL);
 	spki_table_init(&spkit, NULL);
 	otherrec();
